@@ -74,3 +74,41 @@ Proof.
   rewrite <- (undo_sep_index n partition k Hk), <- (undo_sep_index n partition k' Hk').
   unfold sep. cbn [fst snd]. fold m. now rewrite Hr, Hc.
 Qed.
+
+(* the other direction at index level: digits of a number rebuilt from digits *)
+Lemma digits_undigits : forall l, digits (length l) (undigits l) = l.
+Proof.
+  induction l as [|d l IH] using rev_ind; [reflexivity|].
+  rewrite app_length. cbn [length]. rewrite Nat.add_1_r. cbn [digits].
+  unfold undigits in *. rewrite undigits_acc_app.
+  replace (2 * undigits_acc 0 l + (if d then 1 else 0))%N with (N.b2n d + 2 * undigits_acc 0 l)%N
+    by (destruct d; simpl N.b2n; lia).
+  assert (E2 : N.div2 (N.b2n d + 2 * undigits_acc 0 l) = undigits_acc 0 l)
+    by (rewrite N.div2_div; apply N.add_b2n_double_div2).
+  assert (E1 : N.odd (N.b2n d + 2 * undigits_acc 0 l) = d)
+    by (rewrite <- N.bit0_odd; apply N.add_b2n_double_bit0).
+  now rewrite E1, E2, IH.
+Qed.
+
+Lemma merge_length {A} (mask : list bool) : forall rows cols : list A,
+  length rows = length (filter negb mask) -> length cols = length (filter (fun b => b) mask) ->
+  length (merge mask rows cols) = length mask.
+Proof.
+  induction mask as [|m ms IH]; intros rows cols Hr Hc; simpl in *; auto.
+  destruct m; simpl in *.
+  - destruct cols as [|c cs]; simpl in *; try discriminate. injection Hc as Hc. now rewrite IH.
+  - destruct rows as [|r rs]; simpl in *; try discriminate. injection Hr as Hr. now rewrite IH.
+Qed.
+
+(* composing (row digits, column digits) into an index and separating it again gives the digits back *)
+Theorem sep_undo_index n partition (rows cols : list bool) :
+  let m := mask_of n partition in
+  length rows = length (filter negb m) -> length cols = length (filter (fun b => b) m) ->
+  sep_index n partition (undo_digits n partition rows cols) = (undigits rows, undigits cols).
+Proof.
+  intros m Hr Hc. unfold sep_index, undo_digits, undo. cbn [fst snd]. fold m.
+  pose proof (merge_length m rows cols Hr Hc) as L. unfold m in L at 2. rewrite mask_of_length in L.
+  assert (D : digits n (undigits (merge m rows cols)) = merge m rows cols)
+    by (rewrite <- L at 1; apply digits_undigits).
+  cbv zeta. rewrite D, (sep_undo m rows cols Hr Hc). reflexivity.
+Qed.
